@@ -43,7 +43,8 @@ Int1 == Int0
         \cup {Un("c_slot_to_time", a) : a \in {N(7), PV("n", "Int")}}
         \cup {Un("c_time_to_slot", Un("c_slot_to_time", a)) : a \in {PV("n", "Int")}}
         \cup {Bin("property", Struct(0, <<N(3), PV("n", "Int")>>), N(i)) : i \in {0, 1}}
-        \cup {Bin("property", [k |-> "list", items |-> <<N(3), PV("n", "Int")>>], PV("i", "Int"))}
+        \cup {Bin("property", [k |-> "list", items |-> <<N(3), PV("n", "Int")>>], PV("i", "Int")),
+              Bin("property", [k |-> "list", items |-> <<N(5), N(6)>>], PV("i", "Int"))}    \* constant list, unresolved index
         \cup {Bin("property", SrcDatum, N(0))}
 Int2 == Int1 \cup {Bin("sub", Bin("sub", a, b), c) : a \in {PV("n", "Int")}, b \in {N(7), [k |-> "c_tip_slot"]}, c \in Int0}
              \cup {Bin("sub", a, Bin("sub", b, c)) : a \in {PV("n", "Int")}, b \in {N(7)}, c \in Int0}
